@@ -76,6 +76,8 @@ def weight_state(run):
     lv = LogView(run.core)
     out = []
     for sid, s in enumerate(run.core['rng_states']):
-        if lv.root_label(s['log']) == 'Bulletproofs+ verifier weights':
+        root = lv.root_label(s['log'])
+        # (any transcript that is not a caller context of a member: the documented root is 'Bulletproofs+ verifier weights')
+        if root == 'Bulletproofs+ verifier weights' or not (root in ('symx context', 'alternative context') or root.startswith('caller context ')):
             out.append((sid, len(lv.appends(s['log']))))
     return out
